@@ -290,7 +290,7 @@ def model_part(ctx):
     q = [(3, 2, 2, 4, True), (3, 3, 3, 6, False), (4, 2, 2, 4, False), (3, 2, 4, 8, False), (3, 1, 3, 6, True),
          (4, 1, 1, 3, False), (3, 2, 2, 5, False), (3, 3, 3, 5, False)]
     t = q + [(3, 2, 2, 6, True), (4, 2, 2, 6, False), (4, 2, 2, 4, True), (3, 3, 3, 6, True), (5, 2, 2, 4, False), (4, 2, 4, 8, False),
-             (4, 1, 3, 6, True), (5, 1, 1, 4, True), (3, 3, 3, 9, False)]
+             (4, 1, 3, 6, True), (5, 1, 1, 3, True), (3, 3, 3, 9, False)]
     for (K, ch, tf, n, rel) in ctx.pick(q, t):
         jobs.append(dict(module="SimEquiv", cfg_text=se_cfg(K, ch, tf, n, True, [main_inv, "NoErr"], variant, rel=rel),
                          workers=4, coverage=True, timeout=3000))
@@ -298,7 +298,7 @@ def model_part(ctx):
     if variant == (True, True):
         # the repaired loop is the normal loop minute by minute: equivalence holds with the fill-count antecedent alone and
         # even without any antecedent (stronger than C12; checked because it is what the code now promises)
-        for (K, ch, tf, n, rel) in ctx.pick([(3, 3, 3, 6, False)], [(3, 3, 3, 6, True), (4, 2, 2, 6, False)]):
+        for (K, ch, tf, n, rel) in ctx.pick([(3, 3, 3, 6, False)], [(3, 3, 3, 6, True), (4, 2, 2, 4, False)]):
             jobs.append(dict(module="SimEquiv", cfg_text=se_cfg(K, ch, tf, n, False, ["EquivAlways", "NoErr"], variant, rel=rel,
                                                                 constraint=False), workers=4, coverage=True, timeout=3000))
             labels.append("SimEquiv K=%d chunk=%d trading=%d minutes=%d rel-exits=%s invariant=EquivAlways (no antecedent)" % (K, ch, tf, n, rel))
